@@ -771,6 +771,25 @@ class TlWorld(HistoryWorld):
             if back != wire:
                 k = self._klass_of_bytes_diff(st, c, value, back)
                 self.V(ctx, 'bytes-differ', 'reserialize', k, '%s: re-serialised bytes differ from the received frame at offset %d' % (c.name, _first_off(back, wire)))
+                return
+        # both ends move on: the sender's value must be what it was (it may send it again) and the receiver edits the value it got;
+        # a second frame with the same bytes must still parse to the SENT value, whatever was done to the first result
+        if op['dir'] == 'lib->peer':
+            if norm(ref, c.result, value) != want:
+                self.V(ctx, 'argument-changed', 'serialize', self._first_suspect(c, value), 'serialising a %s changed the value the caller passed in' % c.name)
+                return
+            ok, again = call(sch.serialize, lsch, value)
+            if not ok or again != wire:
+                self.V(ctx, 'bytes-differ', 'serialize-again', self._first_suspect(c, value), 'serialising the same %s value a second time gave %s' % (c.name, 'other bytes' if ok else repr(again)))
+                return
+        _scramble(val)
+        ctx.probe('receiver-edits-the-parsed-value-then-the-frame-arrives-again')
+        status, res, steps = metered(PARSE_BUDGET + 40 * len(wire), sch.deserialize, wire)
+        ctx.evaluated(1)
+        ctx.tick(steps)
+        if status != 'ok' or not isinstance(res, tuple) or len(res) != 2 or not isinstance(res[0], dict) or norm(ref, c.result, res[0]) != want or res[1] != len(wire):
+            self.V(ctx, 'parse-value-differs', 'deserialize-again', self._first_suspect(c, value),
+                   '%s: after the receiver edited the value it had parsed, the same frame parsed to a different value (%s)' % (c.name, status))
 
     def _first_suspect(self, c, value):
         cl = sorted(set(_all_classes(_REF, c, value)))
@@ -892,6 +911,21 @@ class TlWorld(HistoryWorld):
                     self.V(ctx, 'blockid-dict', name + '.from_dict', 'aliases-the-dict', 'after the caller edited the dict it had passed to from_dict(), the identifier changed: %r -> %r' % (f0, fields(fresh)))
                     return
         ctx.evaluated(4)
+        # the identifier used as a cursor: its (plain) fields are assigned to those of the neighbouring block after it has been
+        # converted; every conversion must follow the value it holds NOW
+        try:
+            b.workchain, b.shard, b.seqno, b.root_hash, b.file_hash = o['wc'], o['shard'], o['seqno'], o['rh'], o['fh']
+        except Exception:
+            return
+        ctx.probe('identifier-advanced-in-place-after-conversion')
+        fresh = BlockIdExt(o['wc'], o['shard'], o['seqno'], o['rh'], o['fh'])
+        ok, res = call(lambda: (b.to_bytes() == fresh.to_bytes(), b.to_dict() == fresh.to_dict(), tup(BlockIdExt.from_bytes(b.to_bytes())) == tup(fresh),
+                                tup(BlockIdExt.from_dict(b.to_dict())) == tup(fresh), b == fresh and hash(b) == hash(fresh)))
+        if not ok or not all(res):
+            names = ['to_bytes', 'to_dict', 'from_bytes(to_bytes)', 'from_dict(to_dict)', '==/hash']
+            which = 'raises' if not ok else [nm for nm, r in zip(names, res) if not r][0]
+            self.V(ctx, 'blockid-stale', which if ok else 'conversion', 'after-fields-were-assigned',
+                   'after its fields were assigned (cursor use), an identifier converts as if it still held the old block: %s' % (which if ok else repr(res)))
 
     # ------------------------------------------------------------------ shrinking
     def shrink_op(self, op):
@@ -900,6 +934,31 @@ class TlWorld(HistoryWorld):
         v = op['value']
         for cand in _shrink_value(v):
             yield dict(op, value=cand, tags=[])
+
+
+def _scramble(v, depth=0):
+    """The receiver works on what it got: every container it was handed is edited in place."""
+    if depth > 12:
+        return
+    if isinstance(v, dict):
+        for k in list(v.keys()):
+            x = v[k]
+            if isinstance(x, (dict, list)):
+                _scramble(x, depth + 1)
+            elif isinstance(x, bool):
+                v[k] = not x
+            elif isinstance(x, int):
+                v[k] = x ^ 1
+            elif isinstance(x, (bytes, str)):
+                v[k] = x[:0]
+        v['@edited'] = True
+    elif isinstance(v, list):
+        for x in v:
+            if isinstance(x, (dict, list)):
+                _scramble(x, depth + 1)
+        v.append({'@edited': True})
+        if len(v) > 2:
+            del v[0]
 
 
 def _first_off(a, b):
